@@ -1,6 +1,6 @@
 """C03 — the position key depends on the position alone: structural clauses C03-PAIR, C03-SCRATCH,
 C03-INIT (DESIGN.md §3)."""
-from facts import (norm, show, walk, strip_refs, is_call_to, callee_name, place_fields, guard_conditions,
+from facts import (norm, show, deep_strip, walk, strip_refs, is_call_to, callee_name, place_fields, guard_conditions,
                    static_accesses, mentions_call)
 import gh
 
@@ -364,11 +364,28 @@ def rule_scratch(fx, rep):
                     kinds.add(rv["variant"])
         kind_of_method[mb.name] = kinds
     seen = set()
+    loop_pieces = False
     for bb, t in h.calls_to("zobrist::piece_on_square"):
-        n += 1
-        p = enum_const(h.expr(t["args"][0], expand_named=True))
-        k = enum_const(h.expr(t["args"][1], expand_named=True))
+        pe = h.expr(t["args"][0], expand_named=True)
+        ke = h.expr(t["args"][1], expand_named=True)
+        p = enum_const(pe)
+        k = enum_const(ke)
         sq = h.expr(t["args"][2], expand_named=True)
+        if p is None and k is None:
+            # loop form: `for player.. for kind.. for s in board.pieces_of_kind(kind, player) { piece_on_square(player, kind, s) }`
+            gen = [x for x in walk(sq) if isinstance(x, tuple) and x[0] == "call" and isinstance(x[1], str) and x[1].endswith("Board::pieces_of_kind")]
+            if len(gen) != 1:
+                rep.notes.append("C03-SCRATCH: piece words are xored in an unrecognised (non-literal) form; the 12 piece sets are not decided")
+                loop_pieces = True
+                continue
+            n += 1
+            good = show(deep_strip(gen[0][2][1])) == show(deep_strip(ke)) and show(deep_strip(gen[0][2][2])) == show(deep_strip(pe))
+            rep.obligation(good)
+            loop_pieces = True
+            if not good:
+                bad("piece-set/loop", f"hash xors the word of (`{show(pe)[:60]}`, `{show(ke)[:60]}`) over the squares of a different (colour, kind) set `{show(gen[0])[:120]}`", t.get("line"))
+            continue
+        n += 1
         src = [x for x in walk(sq) if isinstance(x, tuple) and x[0] == "call" and isinstance(x[1], str) and
                fx.body(x[1]) is not None and fx.body(x[1]).name in kind_of_method]
         good = p is not None and k is not None and len(src) == 1
@@ -381,17 +398,37 @@ def rule_scratch(fx, rep):
             seen.add((p, k))
         else:
             bad(f"piece-set/{p}/{k}", f"hash xors the ({p}, {k}) word over squares `{show(sq)[:120]}` which is not that colour's set of that kind", t.get("line"))
-    n += 1
-    good = len(seen) == 12
-    rep.obligation(good)
-    if not good:
-        bad("piece-sets", f"hash covers {len(seen)} of the 12 (colour, kind) piece sets: {sorted(seen)}")
+    if loop_pieces:
+        rep.notes.append("C03-SCRATCH: piece words are xored in a loop over (colour, kind); the iteration domain is not decided statically")
+    else:
+        n += 1
+        good = len(seen) == 12
+        rep.obligation(good)
+        if not good:
+            bad("piece-sets", f"hash covers {len(seen)} of the 12 (colour, kind) piece sets: {sorted(seen)}")
     # 4 castling rights, each under its own flag
     seen_r = set()
+    loop_rights = False
     for bb, t in h.calls_to("zobrist::castle_rights"):
+        pe = h.expr(t["args"][0], expand_named=True)
+        se = h.expr(t["args"][1], expand_named=True)
+        p = enum_const(pe)
+        s = enum_const(se)
+        if p is None and s is None:
+            # loop form: `if rights.can_castle_to_side(side) { castle_rights(player, side) }` with (player, rights) drawn from one tuple
+            loop_rights = True
+            g = [e for (e, pol, where) in guard_conditions(h, bb, expand_named=True) if pol is True and isinstance(e, tuple) and e[0] == "call" and
+                 isinstance(e[1], str) and e[1].endswith("CastleRights::can_castle_to_side")]
+            if len(g) != 1:
+                rep.notes.append("C03-SCRATCH: castling words are xored in an unrecognised (non-literal) form; the 4 rights are not decided")
+                continue
+            n += 1
+            good = show(deep_strip(g[0][2][1])) == show(deep_strip(se))
+            rep.obligation(good)
+            if not good:
+                bad("right/loop", f"hash xors the castling word of side `{show(se)[:60]}` under the flag of side `{show(g[0][2][1])[:60]}`", t.get("line"))
+            continue
         n += 1
-        p = enum_const(h.expr(t["args"][0], expand_named=True))
-        s = enum_const(h.expr(t["args"][1], expand_named=True))
         flag = None
         owner = None
         for (e, pol, where) in guard_conditions(h, bb):
@@ -409,11 +446,14 @@ def rule_scratch(fx, rep):
             seen_r.add((p, s))
         else:
             bad(f"right/{p}/{s}", f"hash xors the ({p}, {s}) castling word under flag `{flag}` of rights[{owner}] (expected `{want_flag}` of rights[{pdisc}])", t.get("line"))
-    n += 1
-    good = len(seen_r) == 4
-    rep.obligation(good)
-    if not good:
-        bad("rights", f"hash covers {len(seen_r)} of the 4 castling rights")
+    if loop_rights:
+        rep.notes.append("C03-SCRATCH: castling words are xored in a loop; the iteration domain is not decided statically")
+    else:
+        n += 1
+        good = len(seen_r) == 4
+        rep.obligation(good)
+        if not good:
+            bad("rights", f"hash covers {len(seen_r)} of the 4 castling rights")
     # en passant (unconditional, from game.en_passant_target) and side (iff Black)
     eps = h.calls_to("zobrist::en_passant")
     n += 1
@@ -442,7 +482,8 @@ def rule_scratch(fx, rep):
     rep.obligation(good)
     if not good:
         bad("side", "hash does not xor the side-to-move word exactly when game.player equals one fixed colour")
-    rep.rule("C03-SCRATCH", n, 25, ok, "from-scratch hash vs incremental toggles")
+    # floor: 7 family/static/ep/side obligations + 13 literal piece obligations + 5 literal rights obligations
+    rep.rule("C03-SCRATCH", n, 7 + (0 if loop_pieces else 13) + (0 if loop_rights else 5), ok, "from-scratch hash vs incremental toggles")
 
 
 # ---- C03-INIT ------------------------------------------------------------------------------
